@@ -36,7 +36,7 @@ FEATURE_SETS = {
     "default": ["autocomplete", "docgen"],
     "none": [],
     "autocomplete": ["autocomplete"],
-    "all": ["autocomplete", "docgen", "batteries"],
+    "all": ["autocomplete", "docgen", "batteries", "derive"],
     "dull": ["dull-color"],
     "bright": ["bright-color"],
 }
